@@ -14,6 +14,6 @@ def queries(tier, kfs):
     for n, d, single in cfg:
         qs.append(Query('orders.N%d.D%d.%s' % (n, d, 'single' if single else 'multi'), 'graph.cpp', 'c06.c',
                         dict(FSV_N=n, FSV_D=d, FSV_SINGLE=single), dict(N=n, D=d, SINGLE=single),
-                        unwind=max(16, n * (d + 1) + 3), timeout=900 if tier == 'quick' else 7200,
+                        unwind=max(16, n * (d + 1) + 3), loops=[(r'flow_graph_impl\.hpp:compute_', n + 2), (r'c06\.c:', max(n * d, n + 1) + 2)], timeout=900 if tier == 'quick' else 7200,
                         bounds=dict(N=n, D=d, direction='single' if single else 'multi', state='arbitrary valid receiver table')))
     return qs
